@@ -1516,4 +1516,64 @@ theorem convert_exact_main (nm : List Desc → String)
           simp only at hd
           refine ⟨r.dig, (hresp _).mpr ((hname _).mpr ⟨r, hr, rfl⟩), d, ?_, hm⟩
           rw [hcontent r hr]; exact hd
+
+/-! ## an interrupted conversion, repeated -/
+
+theorem vrStep_congr {bs bs' : List (String × INode)} (acc : VR) (d : Desc) (h : lookup bs d.dig = lookup bs' d.dig) :
+    vrStep bs acc d = vrStep bs' acc d := by
+  unfold vrStep; rw [h]
+
+theorem validReferrer_congr {bs bs' : List (String × INode)} (cur : List Desc)
+    (h : ∀ d ∈ cur, lookup bs d.dig = lookup bs' d.dig) : validReferrer bs cur = validReferrer bs' cur := by
+  have : ∀ (cur : List Desc) (acc : VR), (∀ d ∈ cur, lookup bs d.dig = lookup bs' d.dig) →
+      cur.foldl (vrStep bs) acc = cur.foldl (vrStep bs') acc := by
+    intro cur
+    induction cur with
+    | nil => intro acc _; rfl
+    | cons d ds ih =>
+      intro acc h
+      simp only [List.foldl_cons]
+      rw [vrStep_congr acc d (h d List.mem_cons_self)]
+      exact ih _ (fun d' hd' => h d' (List.mem_cons_of_mem _ hd'))
+  unfold validReferrer
+  rw [this cur {} h]
+
+/-- the blobs that examining the fallback tags reads: the top-level digests and what index blobs list -/
+def Mentioned (x : IState) (g : String) : Prop := Listed x.index g ∨ g ∈ listed x.blobs
+
+theorem convStep_congr (x : IState) (bs' : List (String × INode))
+    (h : ∀ g, Mentioned x g → lookup bs' g = lookup x.blobs g) (c : Conv) (T : Desc) (hT : T ∈ x.index.manifests) :
+    convStep bs' c T = convStep x.blobs c T := by
+  have hg : getIndex bs' T.dig = getIndex x.blobs T.dig := getIndex_congr (h T.dig (Or.inl ⟨T, hT, rfl⟩))
+  unfold convStep
+  rw [hg]
+  cases hgi : getIndex x.blobs T.dig with
+  | none => rfl
+  | some o =>
+    cases o with
+    | none => rfl
+    | some cur =>
+      simp only
+      have hv : validReferrer bs' cur = validReferrer x.blobs cur := by
+        apply validReferrer_congr
+        intro d hd
+        exact h d.dig (Or.inr (getIndex_listed hgi d hd))
+      rw [hv]
+
+theorem phase1_congr (x : IState) (bs' : List (String × INode))
+    (h : ∀ g, Mentioned x g → lookup bs' g = lookup x.blobs g) :
+    phase1 { x with blobs := bs' } = phase1 x := by
+  unfold phase1
+  simp only
+  have : ∀ (ts : List Desc) (c : Conv), (∀ T ∈ ts, T ∈ x.index.manifests) →
+      ts.foldl (convStep bs') c = ts.foldl (convStep x.blobs) c := by
+    intro ts
+    induction ts with
+    | nil => intro c _; rfl
+    | cons T rest ih =>
+      intro c hts
+      simp only [List.foldl_cons]
+      rw [convStep_congr x bs' h c T (hts T List.mem_cons_self)]
+      exact ih _ (fun T' hT' => hts T' (List.mem_cons_of_mem _ hT'))
+  exact this _ _ (fun T hT => ((pass1_digestTags _ T).mp hT).1)
 end Upd
